@@ -62,7 +62,7 @@ namespace vh {
     }
     void note(char const* key, std::string const& val) { g_notes.emplace_back(key, val); }
 
-    std::string fmt(char const* f, ...)
+    std::string sfmt(char const* f, ...)
     {
         char buf[2048];
         va_list ap;
@@ -106,22 +106,22 @@ namespace vh {
         jesc(o, c.prop);
         o += ",\"sub\":";
         jesc(o, c.sub);
-        o += fmt(",\"seed\":%llu,\"outcome\":\"%s\",\"class\":", (unsigned long long) c.seed, outcome);
+        o += sfmt(",\"seed\":%llu,\"outcome\":\"%s\",\"class\":", (unsigned long long) c.seed, outcome);
         jesc(o, cls);
         o += ",\"msg\":";
         jesc(o, msg);
-        o += fmt(",\"steps\":%llu,\"switches\":%llu,\"preempt\":%llu,\"forced\":%llu,\"vtime\":%llu,"
+        o += sfmt(",\"steps\":%llu,\"switches\":%llu,\"preempt\":%llu,\"forced\":%llu,\"vtime\":%llu,"
                  "\"hash\":\"%016llx\",\"threads\":%llu,\"spin_forced\":%llu,\"time_jumps\":%llu,"
-                 "\"focus_preempt\":%llu,\"quiesce_step\":%llu",
+                 "\"focus_preempt\":%llu,\"quiesce_step\":%llu,\"auto_quiesced\":%llu",
             (unsigned long long) st.steps, (unsigned long long) st.switches,
             (unsigned long long) st.preemptions, (unsigned long long) st.forced_switches,
             (unsigned long long) st.vtime_ns, (unsigned long long) st.hash,
             (unsigned long long) st.threads_created, (unsigned long long) st.spin_forced,
             (unsigned long long) st.time_jumps, (unsigned long long) st.focus_preemptions,
-            (unsigned long long) st.quiesce_start_step);
+            (unsigned long long) st.quiesce_start_step, (unsigned long long) st.auto_quiesced);
         o += ",\"faults\":{";
         for (int i = 1; i < SIM_D_NKINDS; i++)
-            o += fmt("%s\"%s\":%llu", i > 1 ? "," : "", dk_names[i],
+            o += sfmt("%s\"%s\":%llu", i > 1 ? "," : "", dk_names[i],
                 (unsigned long long) st.fault_counts[i]);
         o += "},\"probes\":{";
         bool first = true;
@@ -130,7 +130,7 @@ namespace vh {
             if (!first) o += ',';
             first = false;
             jesc(o, p.first);
-            o += fmt(":%llu", (unsigned long long) p.second);
+            o += sfmt(":%llu", (unsigned long long) p.second);
         }
         o += "},\"params\":{";
         first = true;
@@ -139,7 +139,7 @@ namespace vh {
             if (!first) o += ',';
             first = false;
             jesc(o, p.first);
-            o += fmt(":%lld", (long long) p.second);
+            o += sfmt(":%lld", (long long) p.second);
         }
         o += "},\"notes\":{";
         first = true;
@@ -153,7 +153,7 @@ namespace vh {
         }
         o += "}";
         bool ok = strcmp(outcome, "ok") == 0;
-        if (!ok || c.params.get("emit_program", 0))
+        if (!ok || c.params.get("emit_program", 0) || c.seed % 64 == 0)
         {
             o += ",\"program\":[";
             for (size_t i = 0; i < c.program.size(); i++)
@@ -163,7 +163,7 @@ namespace vh {
                 int last = 7;
                 while (last > 0 && c.program[i].v[last] == 0) last--;
                 for (int j = 0; j <= last; j++)
-                    o += fmt("%s%lld", j ? "," : "", (long long) c.program[i].v[j]);
+                    o += sfmt("%s%lld", j ? "," : "", (long long) c.program[i].v[j]);
                 o += ']';
             }
             o += "]";
@@ -174,7 +174,7 @@ namespace vh {
             size_t n = sim_get_record(&d);
             o += ",\"record\":[";
             for (size_t i = 0; i < n; i++)
-                o += fmt("%s[%u,%u,%llu,%llu]", i ? "," : "", d[i].tid, d[i].kind,
+                o += sfmt("%s[%u,%u,%llu,%llu]", i ? "," : "", d[i].tid, d[i].kind,
                     (unsigned long long) d[i].n, (unsigned long long) d[i].arg);
             o += "]";
         }
@@ -211,10 +211,33 @@ namespace vh {
         _exit(0);
     }
 
+    bool g_gdb_on_fail = false;
+    static void gdb_dump()
+    {
+        char cmd[600];
+        snprintf(cmd, sizeof(cmd),
+            "if [ -f /verif/build/tmp/gdbcmds ]; then gdb -p %d -batch -x /verif/build/tmp/gdbcmds > "
+            "/verif/build/tmp/gdb.out 2>&1; exit 0; fi; "
+            "gdb -p %d -batch -ex 'thread apply all bt 25' 2>/dev/null | grep -E '^Thread|^#' | cut "
+            "-c1-260 > /verif/build/tmp/gdb.%d.txt",
+            (int) getpid(), (int) getpid(), (int) getpid());
+        if (system(cmd) != 0) {}
+    }
+
     static void on_sim_fail(char const* cls, char const* msg)
     {
         if (g_reporting) _exit(4);
         g_reporting = true;
+        if (g_gdb_on_fail)
+        {
+            int tfd = open("/verif/build/tmp/trace.txt", O_WRONLY | O_CREAT | O_TRUNC, 0644);
+            if (tfd >= 0)
+            {
+                sim_dump_trace(tfd, 16384);
+                close(tfd);
+            }
+            gdb_dump();
+        }
         std::string m = msg;
         char buf[8192];
         size_t n = sim_describe(buf, sizeof(buf));
@@ -284,7 +307,7 @@ namespace vh {
         c.rr_quantum = (int) P.set("sim.rr_quantum", (int64_t) r.logu(5, 2000));
         c.time_quantum_ns = (uint64_t) P.set("sim.time_quantum_ns", (int64_t) r.logu(20, 5000));
         c.spin_limit = (uint32_t) P.set("sim.spin_limit", (int64_t) r.logu(50, 1000));
-        c.max_steps = (uint64_t) P.set("sim.max_steps", 30000000);
+        c.max_steps = (uint64_t) P.set("sim.max_steps", 6000000);
         // faults: each allowed kind enabled in ~30% of runs
         bool f_sp = (allowed_faults & FAULT_SPURIOUS) && r.chance(30, 100);
         bool f_tf = (allowed_faults & FAULT_TRYFAIL) && r.chance(30, 100);
